@@ -1089,6 +1089,12 @@ func freshDepth(info *types.Info, fi *FuncInfo, e ast.Expr, depth int) (bool, st
 					}
 					if _, isCall := unparen(as.Rhs[0]).(*ast.CallExpr); !isCall {
 						if _, isLit := unparen(as.Rhs[0]).(*ast.CompositeLit); !isLit {
+							// a local that was itself made for this key (members := make(…); copy(members, v))
+							if ro := objOf(info, as.Rhs[0]); ro != nil && ro != o && depth > 0 {
+								if ok, _ := freshDepth(info, fi, as.Rhs[0], depth-1); ok {
+									return true
+								}
+							}
 							shared = exprStr(as.Lhs[0]) + " = " + exprStr(as.Rhs[0])
 						}
 					}
